@@ -337,13 +337,13 @@ def flux_oracle(n, T, pi, q, F, NF, RP, sources, sinks):
     return obs
 
 
-def flux_job(n, sources, sinks, zero_pattern=None, container=None):
+def flux_job(n, sources, sinks, zero_pattern=None, container=None, layout='C'):
     tc = loader.load('enspara.tpt.core')
     tt = loader.load('enspara.tpt.tpt')
 
     def path(ctx):
         T, pi = sym_stochastic(ctx, n, zero_pattern, reversible=True)
-        A = funcs.np_array(T, dtype=float)
+        A = lay(funcs.np_array(T, dtype=float), layout)
         P = funcs.np_array(pi, dtype=float)
         A0, P0 = A.copy(), P.copy()
         arg = as_container(A, container)
@@ -367,8 +367,9 @@ def flux_job(n, sources, sinks, zero_pattern=None, container=None):
         def witness(model):
             Tc = model_matrix(model, T)
             pc = [fl(ev(model, p)) for p in pi]
-            out = {'inputs': {'tprob': Tc, 'populations': pc, 'sources': list(sources), 'sinks': list(sinks), 'container': container or 'ndarray'}}
-            Ac, Pc = as_container(np.array(Tc), container), np.array(pc)
+            out = {'inputs': {'tprob': Tc, 'populations': pc, 'sources': list(sources), 'sinks': list(sinks), 'container': container or 'ndarray',
+                              'memory_layout': layout}}
+            Ac, Pc = as_container(lay(np.array(Tc), layout), container), np.array(pc)
             with core.concrete_mode():
                 try:
                     qc = tc.committors(Ac, list(sources), list(sinks))
